@@ -3,7 +3,7 @@ TRUST = ("trusted: the pyvc VC generator and its Python-subset semantics (ints m
 CHECKS = {
     "C03": dict(level="proof", technique="contract-based deductive verification of the wrapper constructors over integer-sequence terms (AST->SMT; numpy/torch index-array contracts), termination by loop variant, bounded real wrappers",
                 text="PercentFilter / SubsetWrapper / RepeatWrapper / ShuffleWrapper / ClassFilterWrapper / SortByClassWrapper / FewshotWrapper constructors establish exactly the promised index sequence (contiguous ranges with None-only defaults, whole round-robin copies "
-                     "reaching min_size, a permutation keyed by the seed, order-preserving class filter, strict (class, position) order with every labelled sample present, few-shot selections valid, class-sorted and duplicate-free, oversampling(multiply) keeps every sample and appends only labelled ones); OversamplingWrapper(exact) terminates for every class layout; the remaining three wrappers, the few-shot amounts and the balance clauses are bounded only",
+                     "reaching min_size, a permutation keyed by the seed, order-preserving class filter, strict (class, position) order of valid labelled samples, few-shot selections valid, class-sorted and duplicate-free, oversampling(multiply) keeps every sample and appends only labelled ones); OversamplingWrapper(exact) terminates for every class layout; the remaining three wrappers, the few-shot amounts and the balance clauses are bounded only",
                 note=TRUST + "; numpy arange/tile/ceil/shuffle contracts; percent products on reals; KDSubset constructibility as frame obligation"),
     "C04": dict(level="proof", technique="contract-based deductive verification (own AST->SMT VC generator, z3+cvc5), refinement of a ghost spec automaton by loop invariants",
                 text="every obligation generated from the real InterleavedSampler.__init__/__iter__/_training_loop and _InterleavedBatchSampler.__iter__ "
